@@ -409,7 +409,8 @@ var (
 	w13SwitchMu sync.Mutex
 	w13Prev     *w13Instance
 	// instances whose goroutines have not ended yet: each holds several MB per db for about a second
-	w13Closing = make(chan struct{}, 48)
+	w13Closing  = make(chan struct{}, 48)
+	w13DirtySem = make(chan struct{}, 96)
 )
 
 func w13NextInstance() (*w13Instance, error) {
@@ -626,9 +627,13 @@ func (in *w13Instance) close() {
 				in.slock.aof.Close()
 			}()
 			// Whatever still refers to the instance (goroutines parked on the dead mutex), its bulk is
-			// dropped after everything that can still run has ended: several MB of queues per db.
+			// dropped after everything that can still run has ended (the timer loops need up to a second
+			// to notice the state): several MB of queues per db. Until then the instance counts against
+			// w13DirtySem, which bounds the memory that a run shrinking a crash can pile up.
+			w13DirtySem <- struct{}{}
 			go func() {
-				time.Sleep(4 * time.Second)
+				defer func() { <-w13DirtySem }()
+				time.Sleep(2 * time.Second)
 				for _, db := range dbs {
 					db.fastLocks, db.locks, db.freeLockManagers, db.freeLocks = nil, nil, nil, nil
 					db.timeoutLocks, db.expriedLocks, db.longTimeoutLocks, db.longExpriedLocks = nil, nil, nil, nil
